@@ -37,7 +37,7 @@ func libEffects(f *types.Func) ([]string, bool) {
 		return []string{"ctxdone"}, true
 	case full == "github.com/filecoin-project/go-leb128.FromUInt64", full == "(github.com/ipfs/go-cid.Cid).Bytes":
 		return []string{"bytes"}, true
-	case full == "(github.com/ipfs/go-cid.Cid).ByteLen":
+	case full == "(github.com/ipfs/go-cid.Cid).ByteLen", full == "(github.com/ipfs/go-cid.Cid).Equals", full == "(github.com/ipfs/go-cid.Cid).Defined":
 		return nil, true
 	case full == "github.com/ipfs/go-cid.CidFromReader":
 		return []string{"consumed"}, true
@@ -422,6 +422,12 @@ func (u *Unit) libModel(st *State, e *ast.CallExpr, callee *types.Func, ca callA
 		st.assume(u.uvarintAtFacts(blk, c.idxConst(0), x.S))
 		r := u.allocBlock(st, u.byteT(), blk)
 		return Term{S: fmt.Sprintf("(mk_slice %s %s %s %s)", r, c.idxConst(0), n, n), T: sig.Results().At(0).Type()}, true
+	case "(github.com/ipfs/go-cid.Cid).Equals":
+		// go-cid: func (c Cid) Equals(o Cid) bool { return c == o }
+		return Term{S: eq(ca.recv.S, ca.args[0].S), T: boolT}, true
+	case "(github.com/ipfs/go-cid.Cid).Defined":
+		// go-cid: func (c Cid) Defined() bool { return c.str != "" } ; Undef = Cid{}
+		return Term{S: not(eq(ca.recv.S, u.zeroOf(ca.recv.T).S)), T: boolT}, true
 	case "(github.com/ipfs/go-cid.Cid).Bytes", "(github.com/ipfs/go-cid.Cid).ByteLen":
 		// the byte form of a CID is a pure function of the CID value: cid.bytelen(c) bytes cid.byte(c, k)
 		u.declareCidGhost()
